@@ -199,16 +199,16 @@ func splitArraySort(s Sort) (Sort, Sort) {
 
 // Env is the global registry of SMT declarations shared by all queries.
 type Env struct {
-	order    []string          // declaration text in order
-	declared map[string]bool   // names already declared
-	axioms   []string          // background axioms (asserted in every query)
-	axiomSet map[string]bool   //
-	litIdx   map[string]string // string literal -> const name
-	tagIdx   map[string]int    // type string -> tag
-	tagNames []string
-	fresh    int
-	trusted  map[string]bool // names of axioms that are assumptions
-	mapInfo  map[string]mapInfo
+	order     []string          // declaration text in order
+	declared  map[string]bool   // names already declared
+	axioms    []string          // background axioms (asserted in every query)
+	axiomSet  map[string]bool   //
+	litIdx    map[string]string // string literal -> const name
+	tagIdx    map[string]int    // type string -> tag
+	tagNames  []string
+	fresh     int
+	trusted   map[string]bool // names of axioms that are assumptions
+	mapInfo   map[string]mapInfo
 	heapTypes map[string]heapType
 }
 
